@@ -21,6 +21,8 @@ struct Inst2 { @location(5) p: vec4<f32>, @location(6) q: vec4<f32> }
 struct Scene { fallback: Inst2, exposure: f32, gamma: f32 }
 struct PrivIn { @location(9) p: vec4<f32>, @location(10) s: f32 }
 struct WgOnly { k: u32, l: vec2<u32> }
+struct Flags { on: bool, n: u32, mask: vec2<bool> }
+var<private> flags: Flags;
 var<private> stash: PrivIn;
 var<workgroup> wg: WgOnly;
 @group(0) @binding(4) var<uniform> scene: Scene;
@@ -43,7 +45,7 @@ SRC_RT = SRC_NO_RT + '''struct RtHost { n: u32, data: array<vec4<f32>> }
 '''
 ROLES = {'Inner': ('host', False), 'HostOnly': ('host', False), 'VertexOnly': ('vertex', False), 'Both': ('host', False),
          'FragIn': ('other', False), 'RtHost': ('host', True), 'BigArr': ('host', False), 'Inst2': ('host', False), 'Scene': ('host', False),
-         'PrivIn': ('host', False), 'WgOnly': ('host', False)}        # reachable from a module-scope variable of ANY address space
+         'PrivIn': ('host', False), 'WgOnly': ('host', False), 'Flags': ('host', False)}        # reachable from a module-scope variable of ANY address space
 
 
 def expected_derives(role, rt, o):
